@@ -33,8 +33,32 @@ def gen_scenario(rng, prop="C13"):
     return {"threads": threads, "stop_at": stop_at}
 
 
+def gen_crash(rng):
+    """C14 outside the model (monitors only): the daemon does not stop because it was asked to, it dies — an absolute deadline
+    that its arithmetic cannot handle (`Till(till=-(10**400))`: int minus float overflows inside the loop).  Every outstanding
+    Till must still become true, and so must every Till made afterwards."""
+    sc = gen_scenario(rng, "C14")
+    sc["stop_at"] = None
+    k = rng.randrange(len(sc["threads"]))
+    ops = sc["threads"][k]
+    pos = rng.randint(0, len(ops))
+    while pos < len(ops) and ops[pos][0] == "wait":      # keep a `wait` attached to the Till made before it
+        pos += 1
+    at = rng.choice([0, 1, 60, 130, 200, 300])
+    ops.insert(pos, ["crash", at])
+    sc["crash"] = True
+    return sc
+
+
+def _ticks(x):
+    try:
+        return int(round(x * TICK))
+    except (OverflowError, ValueError):
+        return 0
+
+
 def shape(sc):
-    return "/".join("".join(({"till": "T", "tilla": "A"}.get(o[0], "w")) for o in t) for t in sc["threads"]) + (":S%s" % sc["stop_at"] if sc["stop_at"] is not None else "")
+    return ("crash:" if sc.get("crash") else "") + "/".join("".join(({"till": "T", "tilla": "A", "crash": "X"}.get(o[0], "w")) for o in t) for t in sc["threads"]) + (":S%s" % sc["stop_at"] if sc["stop_at"] is not None else "")
 
 
 def run_scenario(sc, chooser=None, seed=0, max_steps=8000, horizon_ticks=1400):
@@ -97,7 +121,7 @@ def run_scenario(sc, chooser=None, seed=0, max_steps=8000, horizon_ticks=1400):
             self.held = False
             self.owner = None
             if s is not None:
-                s.emit("rel", "TL", int(round(tillmod.Till.next_ping * TICK)), len(tillmod.Till.new_timers))
+                s.emit("rel", "TL", _ticks(tillmod.Till.next_ping), len(tillmod.Till.new_timers))
                 if not s.abort:
                     s.yield_point(("after-rel",))     # a pre-emption point right after the release (before the thread's next statement)
 
@@ -121,7 +145,7 @@ def run_scenario(sc, chooser=None, seed=0, max_steps=8000, horizon_ticks=1400):
         def timestamp(self):
             s = ds.CUR
             if s is not None and s.me() is not None and not s.abort and sys._getframe(1).f_code.co_name == "daemon":
-                s.emit("rping", int(round(tillmod.Till.next_ping * TICK)))
+                s.emit("rping", _ticks(tillmod.Till.next_ping))
                 s.yield_point(("wping",))
                 s.emit("wping", None)
                 st["pending_wping"] = len(s.events) - 1
@@ -133,7 +157,7 @@ def run_scenario(sc, chooser=None, seed=0, max_steps=8000, horizon_ticks=1400):
         k = st["pending_wping"]
         if k is not None:
             ev = s.events[k]
-            s.events[k] = ev[:2] + (int(round(tillmod.Till.next_ping * TICK)),)
+            s.events[k] = ev[:2] + (_ticks(tillmod.Till.next_ping),)
             st["pending_wping"] = None
     sched.on_step = fill_wping
 
@@ -174,7 +198,14 @@ def run_scenario(sc, chooser=None, seed=0, max_steps=8000, horizon_ticks=1400):
     tillmod.enabled = signal_factory("enabled")
 
     def daemon_body():
-        tillmod.daemon(please_stop)
+        try:
+            tillmod.daemon(please_stop)
+        except ds.SchedAbort:
+            raise
+        except Exception:
+            if not sc.get("crash"):
+                raise
+            st["daemon_crashed"] = True     # the scenario makes it die: what matters is what its `finally` left behind
         st["daemon_returned"] = True        # not reached when the run is torn down under it
     dvt = sched.spawn("t0", daemon_body, background=True, timekeeper=True)
 
@@ -200,6 +231,14 @@ def run_scenario(sc, chooser=None, seed=0, max_steps=8000, horizon_ticks=1400):
                         last = t
                     else:
                         last = t
+                elif op[0] == "crash":
+                    sched.until(op[1] / TICK)
+                    try:
+                        tillmod.Till(till=-(10 ** 400))
+                    except ds.SchedAbort:
+                        raise
+                    except Exception:
+                        pass
                 elif op[0] == "wait" and last is not None:
                     sched.note("waiton", ti)
                     st.setdefault("waiting_on", {})[ti] = last_deadline
@@ -237,7 +276,7 @@ def run_scenario(sc, chooser=None, seed=0, max_steps=8000, horizon_ticks=1400):
     lines, info = to_lines(sched.events)
     lines.append(" ".join(["end", outcome] + [str(t) for t in stuck]))
     fired = sorted(i for i, s in st["created"].items() if ds.raw(s, "_go"))
-    lines.append("final fired=%s np=%d now=%d" % (",".join(str(i) for i in fired), int(round(tillmod.Till.next_ping * TICK)),
+    lines.append("final fired=%s np=%d now=%d" % (",".join(str(i) for i in fired), _ticks(tillmod.Till.next_ping),
                                                   int(round(sched.clock * TICK))))
     viol = st["viol"]
     if not st["interval_ok"]:
